@@ -344,6 +344,9 @@ func checkOut(out, A, D []byte, valid bool, who string) {
 	vAssert(wf, "C01/wf-"+who)
 	vAssert(wf, "C09/wf-"+who)
 	vAssert(ls, "C03/lineSafe-"+who)
+	if vProp("C03") {
+		vAssert(linesWF(out), "C03/each-line-wf-"+who)
+	}
 	vAssert(ls, "C09/lineSafe-"+who)
 	if valid {
 		vAssert(bytesEq(strip(out), A), "C09/strip-"+who)
